@@ -8,6 +8,12 @@ PY = "/venv/bin/python"
 
 # id -> (technique, level text, level note, design ref)
 CHECKS = {
+    "C15": (
+        "Hypothesis over programs (random sequences of read-only entry points) on corpus and generated documents, with byte-equality of part serialisations before/after each call and answer stability as oracle",
+        "An explicit table of ~135 read-only entry points (plus every argument-less getter found by signature inspection) of Document, Meta, Body/Element, Table, Row, TOC, List, Frame and the export mixins is exercised in random order on the templates, the bounded-table corpus and generated documents; after each call all XML parts and binary parts must be byte-identical and a second call must return the same answer.",
+        "Documents with tables above a size bound are excluded (whole-body exports expand all repetitions); the two getters documented as creating their container are excluded.",
+        "DESIGN.md 3/C15",
+    ),
     "C11": (
         "exhaustive enumeration of inline-element adjacencies x containers + Hypothesis over corpus documents, with metamorphic oracle (pretty/folder/flat save == plain save up to ignorable white space; memory unchanged; save sequences idempotent) read through lxml",
         "Every ordered adjacency of 12 inline kinds up to length 3 is placed in paragraphs, headings, list items, cells, note bodies and text boxes and saved plain, pretty, as folder and as flat XML, in several save sequences; paragraph projections, element skeleton, attribute multiset and leaf texts must equal those of the plain save, the in-memory parts must be byte-identical before and after each save, and the final plain output must be C14N-identical. The same is done for the templates and the corpus documents with short edit histories.",
